@@ -417,7 +417,7 @@ func runCalls(c Case, e *env) []Event {
 			continue
 		}
 		obs := map[string]interface{}{"err": out.err != nil || out.res == nil, "nodeok": false, "ms": out.dur.Milliseconds(),
-			"core": "", "urldig": "", "pag": "", "pagempty": true, "urlfield": "none", "wc": -1, "view": "", "txtwc": -1, "ntitle": 0, "onlytxt": false,
+			"core": "", "urldig": "", "pag": "", "pagempty": true, "urlfield": "none", "wc": -1, "view": "", "txtwc": -1, "glued": 0, "ntitle": 0, "onlytxt": false,
 			"treesame": snapshotTree(root) == treeBefore, "optssame": snapshotOpts(opts) == optsBefore}
 		if out.err == nil && out.res != nil {
 			res := out.res
@@ -442,6 +442,15 @@ func runCalls(c Case, e *env) []Event {
 			}
 			obs["view"] = dig(viewText + "\x00" + viewHTML)
 			obs["txtwc"] = countWords(res.Text)
+			// words of the text view that are made of several source words: a word that continues across an
+			// inline element (10<sup>th</sup>); each joint is one place where two text nodes meet inside a word
+			glued := 0
+			for _, f := range strings.Fields(res.Text) {
+				if k := len(rxTok.FindAllString(f, -1)); k > 1 {
+					glued += k - 1
+				}
+			}
+			obs["glued"] = glued
 			obs["ntitle"] = len(res.Title)
 			obs["onlytxt"] = onlyText(res.Node)
 			if obs["onlytxt"].(bool) && res.Title == "" && res.Text != "" {
